@@ -966,13 +966,26 @@ func checkFlushAfter(r *Reporter, p *Prog, pkg, typ, m, field string) {
 		r.Fail("fwd/flush-after-write", key, p.posStr(calls[0].Pos()), "the mutation's error is not tested before flushing")
 		return
 	}
+	// Flush of the store field, also when the field travels to a helper as a parameter
+	flushCalls := map[*ast.CallExpr]bool{}
+	for _, c := range f.Calls(func(c *ast.CallExpr) bool {
+		se, ok := ast.Unparen(c.Fun).(*ast.SelectorExpr)
+		return ok && se.Sel.Name == "Flush"
+	}) {
+		se := ast.Unparen(c.Fun).(*ast.SelectorExpr)
+		x := se.X
+		if cpt, found := f.PointOf(c); found {
+			if re, _ := f.Resolve(x, cpt); re != nil {
+				x = re
+			}
+		}
+		if fieldSel(info, x, "store") {
+			flushCalls[c] = true
+		}
+	}
 	isFlush := func(n ast.Node) bool {
 		c, ok := n.(*ast.CallExpr)
-		if !ok {
-			return false
-		}
-		se, ok := ast.Unparen(c.Fun).(*ast.SelectorExpr)
-		return ok && se.Sel.Name == "Flush" && fieldSel(info, se.X, "store")
+		return ok && flushCalls[c]
 	}
 	for _, e := range succ {
 		if w, found := f.reach(Point{e.From.Succs[e.Succ], 0}, &searchOpts{AvoidNode: isFlush}, func(pt Point, atExit bool) bool { return atExit }); found {
@@ -983,8 +996,18 @@ func checkFlushAfter(r *Reporter, p *Prog, pkg, typ, m, field string) {
 	// the flush result is what is returned
 	okRet := false
 	ast.Inspect(fd.Body, func(n ast.Node) bool {
-		if rs, ok := n.(*ast.ReturnStmt); ok && len(rs.Results) == 1 && isFlush(ast.Unparen(rs.Results[0])) {
-			okRet = true
+		if rs, ok := n.(*ast.ReturnStmt); ok && len(rs.Results) == 1 {
+			if isFlush(ast.Unparen(rs.Results[0])) {
+				okRet = true
+			} else if rpt, found := f.PointOf(rs); found {
+				// `return finish(...)`: every value the helper hands back on a path that flushed
+				// is the flush result (its other returns are the mutation's own error)
+				for _, o := range f.Origins(rs.Results[0], rpt) {
+					if isFlush(ast.Unparen(o.E)) {
+						okRet = true
+					}
+				}
+			}
 		}
 		return true
 	})
